@@ -930,6 +930,18 @@ func (x *Exec) mapKeyTerms(k *Val) ([]*Term, error) {
 	return []*Term{k.C[0]}, nil
 }
 
+// mapStoreKey: the key under which an UPDATE files its value.  String keys are filed under an
+// identity of the string value (reference, offset, length), which is finer than Go's
+// equality by contents: two updates with equal but distinct strings stay two entries.  That
+// is harmless for updates alone; reading such a map is refused (lookup) or loses the entries
+// (iteration and len see a new, unconstrained map version).
+func (x *Exec) mapStoreKey(k *Val) ([]*Term, error) {
+	if len(k.C) == 3 && isString(k.T) {
+		return []*Term{x.tb.App("strkeyid", 64, k.C[0], k.C[1], k.C[2])}, nil
+	}
+	return x.mapKeyTerms(k)
+}
+
 func (x *Exec) mapClear(st *State, mt *types.Map, r *Term) {
 	tb := x.tb
 	name := "M:" + typeKey(mt) + "#dom"
@@ -952,7 +964,7 @@ func (x *Exec) mapUpdate(st *State, in *ssa.MapUpdate) error {
 		return err
 	}
 	mt := in.Map.Type().Underlying().(*types.Map)
-	ks, err := x.mapKeyTerms(k)
+	ks, err := x.mapStoreKey(k)
 	if err != nil {
 		return err
 	}
